@@ -241,10 +241,13 @@ CHECKS = {
           "'the chord in progress lasts to the end of its bar and the earlier chords fill exactly the time since the first chord symbol' "
           "(each chord lasts until the next symbol); hence total = (bars from first to last chord symbol) x L - pickup. The clock model "
           "(bar/beat/chord tokens, variations dropped, beat convention) is tied to ScoreFormatter(text).parse() on generated annotations over "
-          "10 signatures, flush-left and indented, first bar m0/m1/m3/m5/m12. Figures: diatonic triads/sevenths x inversions x 12 keys x 2 modes "
-          "(1 608 cases, exhaustive) are compared with textbook pitch classes and basses by the oracle. The first-bar renumbering defect was repaired.",
+          "10 signatures, flush-left and indented, first bar m0/m1/m3/m5/m12. Figures: for the 104 diatonic figures x 12 keys the answer of roman_parser.analyze_one_chord is regenerated into a table on "
+          "every run, and a kernel sweep proves that each returned chord has, by the pitch model of C01/C02, exactly the pitch classes and bass of "
+          "the standard reading (stacked thirds of the key's scale; minor keys: V and vii from the harmonic scale); the same cases are also "
+          "checked end to end by the oracle (analyze_one_chord + Chord pitches). The first-bar renumbering defect was repaired.",
   "note": "Trusted: Coq kernel; the line/space tokeniser (text is generated from tokens); float bar lengths (exact for these signatures). "
-          "The figure tables (chromatic, applied, special figures) are not modelled in Coq: oracle on the diatonic domain only. Signature "
+          "The figure PARSER (regexes, replacement tables) is not modelled: its graph on the diatonic domain is regenerated and proved correct; "
+          "chromatic, applied and special figures (N6, Ger, It, Fr) are outside; i7 / v7 in minor are left out (natural vs harmonic reading). Signature "
           "changes inside an annotation are covered by the model correspondence, not by the theorem. Beat unit = the code's convention (DESIGN).",
  },
 }
